@@ -284,7 +284,7 @@ func finish(P *Program, verif, prop, tier string, seed int, results []*HarnessRe
 				for i, x := range w.inputs {
 					ins[i] = replayInput{Kind: x.Kind, Val: x.Val}
 				}
-				c := replayCase{Property: prop, Harness: r.Name, Pkg: rel, Tier: gTier, Inputs: ins, Expect: "pass", Label: strings.Join(w.covers, ","), Known: knownIDsWithStatusKnown()}
+				c := replayCase{Property: prop, Harness: r.Name, Pkg: rel, Tier: gTier, Inputs: ins, Expect: "pass", Label: strings.Join(w.covers, ","), Obs: w.obs, Known: knownIDsWithStatusKnown()}
 				byPkg[rel] = append(byPkg[rel], pending{c: c, kind: "witness", r: r})
 			}
 		}
@@ -310,8 +310,11 @@ func finish(P *Program, verif, prop, tier string, seed int, results []*HarnessRe
 			o := outs[i]
 			switch p.kind {
 			case "witness":
-				if o.Result == "pass" {
+				if o.Result == "pass" && obsEqual(p.c.Obs, o.Obs) {
 					validated++
+				} else if o.Result == "pass" {
+					mismatches++
+					fmt.Printf("ENGINE-MISMATCH %s: observations differ\n  interp: %v\n  native: %v\n  inputs=%v\n", p.r.Name, p.c.Obs, o.Obs, p.c.Inputs)
 				} else {
 					mismatches++
 					fmt.Printf("ENGINE-MISMATCH %s: interpreter path passes, native run: %s %s %s inputs=%v\n", p.r.Name, o.Result, o.Label, o.Msg, p.c.Inputs)
@@ -491,4 +494,19 @@ func keys(m map[string]bool) []string {
 	}
 	sort.Strings(out)
 	return out
+}
+
+func obsEqual(pred, nat []string) bool {
+	if len(pred) != len(nat) {
+		return false
+	}
+	for i := range pred {
+		if strings.HasSuffix(pred[i], "=?") {
+			continue
+		}
+		if pred[i] != nat[i] {
+			return false
+		}
+	}
+	return true
 }
